@@ -12,7 +12,7 @@ from core import renamed
 
 REGISTRY_LOCK = 'open_ro_txs'
 ALLOWED_MUTATORS = {'push', 'insert', 'remove', 'sort', 'sort_unstable', 'sort_by', 'sort_unstable_by', 'sort_by_key', 'sort_unstable_by_key',
-                    'deref_mut', 'index_mut', 'as_mut_slice', 'as_mut', 'iter_mut', 'binary_search'}
+                    'deref_mut', 'index_mut', 'as_mut_slice', 'as_mut', 'iter_mut', 'binary_search', 'get_mut', 'first_mut', 'last_mut', 'swap'}
 SORTS = {'sort', 'sort_unstable', 'sort_by', 'sort_unstable_by', 'sort_by_key', 'sort_unstable_by_key'}
 READS_CONTENT = {'index', 'first', 'get', 'iter', 'min', 'into_iter', 'last', 'get_unchecked', 'as_slice', 'deref'}
 
@@ -357,14 +357,15 @@ def sorted_registry(ctx, rule='C03.sorted-registry'):
                                '%s applies `%s` to the open-reader registry at %s; only order-preserving single-element operations (push+sort, insert, remove) are allowed: '
                                'bulk or order-breaking mutation un-pins readers or breaks the "first element is the oldest reader" assumption of the writer'
                                % (fn.qual, name, fn.loc(bb)), where=fn.loc(bb)))
-            if name == 'push':
+            if name in ('push', 'index_mut', 'iter_mut', 'as_mut_slice', 'as_mut', 'get_mut', 'first_mut', 'last_mut', 'swap'):
+                # an element written in place (`registry[i] = id`) needs the same re-sort as an appended one
                 n += 1
                 sorts = {b2 for b2, t2, n2, m2 in calls if n2 in SORTS}
                 # every path from the push to a release of the guard passes a sort
                 reach = fn.reach_from(fn.succ(bb), avoid=sorts)
                 leak = [d for d in drops if d in reach] + [x for x in reach if not fn.succ(x)]
                 if leak:
-                    res.append(bad(rule, '%s | push without sort' % fn.qual,
+                    res.append(bad(rule, '%s | %s without sort' % (fn.qual, 'push' if name == 'push' else 'in-place write'),
                                    'the registry insertion at %s can reach the release of the registry guard at %s without sorting: writers read the first element as the oldest reader'
                                    % (fn.loc(bb), fn.loc(leak[0])), where=fn.loc(bb)))
                 else:
